@@ -288,19 +288,25 @@ func scenario(flavor string, h []Step, mode string, eager bool) *explore.Scenari
 				cdi.VerifResetDefaultCache()
 				cdi.DefaultSpecDirs = absDirs(root, initialDirs)
 			} else {
-				configure(cdi.WithSpecDirs(absDirs(root, initialDirs)...))
+				opt, reuse := dirmodel.Dirs(absDirs(root, initialDirs)...)
+				configure(opt)
+				reuse() // the caller's slice is used for something else once the call has returned
 			}
 			for i, s := range h {
 				switch s.Kind {
 				case "configure":
 					var opts []cdi.Option
+					reuse := func() {}
 					if s.Dirs != nil {
-						opts = append(opts, cdi.WithSpecDirs(absDirs(root, s.Dirs)...))
+						var opt cdi.Option
+						opt, reuse = dirmodel.Dirs(absDirs(root, s.Dirs)...)
+						opts = append(opts, opt)
 					}
 					if s.Auto != nil {
 						opts = append(opts, cdi.WithAutoRefresh(*s.Auto))
 					}
 					configure(opts...)
+					reuse()
 					// a cache switched (or left) in manual mode by a reconfiguration must answer like a new
 					// manual cache created now: a new cache scans when it is created, so the reconfigured
 					// one must have scanned too (later directory changes are invisible to both)
